@@ -11,7 +11,7 @@ def Incr (nx : Nat → Int → Option Int) : Prop := ∀ sc t t', nx sc t = some
 /-! ### queue / index agreement -/
 
 structure QInv (s : St) : Prop where
-  whn : ∀ it ∈ s.queue, it.whn = it.next + it.off
+  whn : ∀ it ∈ s.queue, it.whn = it.next + secUp it.off
   uniq : ∀ a ∈ s.queue, ∀ b ∈ s.queue, a.id = b.id → a = b
   idx : ∀ id w, aget s.index id = some w ↔ ∃ it ∈ s.queue, it.id = id ∧ it.whn = w
   sorted : Sorted s.queue
@@ -141,15 +141,16 @@ theorem good_schedule {E : Env} {s : St} (h : Good E s) (id sc : Nat) (off last 
     exact (ht.cons (e := Ev.onErr id) rfl).cons (e := Ev.schedErr id) rfl
   | some nt =>
     simp only
-    obtain ⟨f1, f2, f3, f4, f5⟩ := schedTimer_fields s ((nt + off) * 1000 + frac)
-    have h1 : Good E (schedTimer s ((nt + off) * 1000 + frac)) := h.congr f1 f2 f3 f4 f5
-    generalize schedTimer s ((nt + off) * 1000 + frac) = s1 at h1 ⊢
+    obtain ⟨f1, f2, f3, f4, f5⟩ := schedTimer_fields s (nt * 1000 + (off * 1000 + frac))
+    have h1 : Good E (schedTimer s (nt * 1000 + (off * 1000 + frac))) := h.congr f1 f2 f3 f4 f5
+    generalize schedTimer s (nt * 1000 + (off * 1000 + frac)) = s1 at h1 ⊢
+    generalize off * 1000 + frac = o
     obtain ⟨hq, m, ht, hc⟩ := h1
     -- membership in the new queue
     have hmem : ∀ x, x ∈ qreplace (match aget s1.index id with
           | some w => qdelete s1.queue (key id w)
-          | none => s1.queue) { whn := nt + off, id := id, sc := sc, next := nt, off := off } ↔
-        x = { whn := nt + off, id := id, sc := sc, next := nt, off := off } ∨ (x ∈ s1.queue ∧ x.id ≠ id) := by
+          | none => s1.queue) { whn := nt + secUp o, id := id, sc := sc, next := nt, off := o } ↔
+        x = { whn := nt + secUp o, id := id, sc := sc, next := nt, off := o } ∨ (x ∈ s1.queue ∧ x.id ≠ id) := by
       intro x
       rw [mem_qreplace, mem_drop_id hq]
       constructor
@@ -190,7 +191,7 @@ theorem good_schedule {E : Env} {s : St} (h : Good E s) (id sc : Nat) (off last 
     · exact sorted_qreplace (sorted_drop_id hq id)
     · -- the monitor takes the `sched` event
       let v := m.view id
-      refine ⟨m.set id { epoch := some (sc, off), expect := E.nx sc last, ck := none,
+      refine ⟨m.set id { epoch := some (sc, o), expect := E.nx sc last, ck := none,
                           run := v.run.map (fun r => { r with cur := false }) }, ht.cons rfl, ?_⟩
       refine ⟨hc.now_eq, ?_, ?_, ?_, ?_, ?_⟩
       · intro x hx
